@@ -38,6 +38,17 @@ func dkgScenario(g *gen.G) *sim.Sim {
 		n = 4 + g.Int("nExtra", 0, maxN-4) // three honest participants and a Byzantine one need n >= 4: half of the small networks are enlarged
 	}
 	t := g.Int("t", 1, n-1)
+	if dkgLarge {
+		// groups at and next to the maximum size (participant indices fill a byte); thresholds stay small because every
+		// participant evaluates the dealer's polynomial at every index
+		if proto == sim.JointFeldman {
+			n = []int{24, 33, 40}[g.Pick("nLargeJoint", 3)]
+		} else {
+			n = []int{129, 200, 253, 254}[g.Pick("nLarge", 4)]
+		}
+		t = g.Int("tLarge", 1, 3)
+		g.Class(fmt.Sprintf("largeNetwork:%v:n=%d", proto, n))
+	}
 	nbyz := g.Int("byzantine", 0, min(t, n-1))
 	byz := g.Perm("byzSet", n)[:nbyz]
 	dealer := g.Pick("dealer", n)
@@ -62,6 +73,9 @@ func dkgScenario(g *gen.G) *sim.Sim {
 			}
 		}
 		s.Template, s.Victim, s.Wildcard = true, hon[g.Pick("victim", len(hon))], g.Int("wildcard", 0, 3*n+8)
+		if dkgLarge && g.Bool("victimAtTheTop") {
+			s.Victim = hon[len(hon)-1-g.Int("victimFromTop", 0, min(2, len(hon)-1))] // the last indices of a large group
+		}
 		g.Class("template:oneVictimOneWildcard")
 		if !s.KnownF5 && g.Chance("victimEarlyAnswer", 1, 3) {
 			s.VictimEarlyAnswer, s.EarlyAnswerRound = 1+g.Int("earlyAnswerWrong", 0, 1), g.Int("earlyAnswerRound", 1, 2)
@@ -471,6 +485,35 @@ func TestC07_Agreement(t *testing.T) {
 		if dkgClasses(g, s) {
 			g.NonTrivial()
 		}
+	})
+}
+
+// dkgLarge makes dkgScenario draw groups at and next to the maximum size (set by the large-network jobs only).
+var dkgLarge bool
+
+// TestC07_LargeNetwork / TestC08_LargeNetwork: the same scenarios and oracles on groups of 129 … 254 participants
+// (Feldman-VSS-Qual) and 24 … 40 (Joint-Feldman): the victims, complainers and Byzantine participants are drawn from the
+// whole index range, so indices above 127 and the last index take part in complaints and answers.
+func TestC07_LargeNetwork(t *testing.T) {
+	dkgLarge = true
+	defer func() { dkgLarge = false }()
+	gen.Run(t, "C07", func(g *gen.G) {
+		s := dkgScenario(g)
+		checkC07(g, s, true)
+		dkgClasses(g, s)
+		g.NonTrivial()
+	})
+}
+
+func TestC08_LargeNetwork(t *testing.T) {
+	dkgLarge = true
+	defer func() { dkgLarge = false }()
+	gen.Run(t, "C08", func(g *gen.G) {
+		s := dkgScenario(g)
+		checkC08(g, s)
+		checkComposition(g, s, false)
+		dkgClasses(g, s)
+		g.NonTrivial()
 	})
 }
 
